@@ -16,8 +16,8 @@ def c(engine, technique, text, ref, note=None):
 
 
 CHECKS = {
-    "C01": c("framer", "TLA+ spec of the frame-sync state machine (Framer.tla): TLC exhaustive over streams x fault placements; replay of TLC's full state graph into the real reader; TLC-judged traces (FramerTrace.tla)",
-             "TLC explores every stream over an 11-symbol alphabet with adaptive CRC and every short/empty-read placement; every edge of that state graph is replayed on the real RTCMReader; recorded executions over adversarial streams, fault schedules and the repository's logs are validated step by step (request sizes, follow-ups, CRC-24Q recomputed in TLA+), and each delivered object is judged against the payload of its own slice.", "3.1, 4/C01"),
+    "C01": c("framer", "TLA+ spec of the frame-sync state machine (Framer.tla): TLC exhaustive over streams x fault placements; replay of TLC's full state graph into the real reader; TLC-judged traces (FramerTrace.tla exact binding, FramerOut.tla output-level binding, SliceJudge.tla on every trace)",
+             "TLC explores every stream over an 11-symbol alphabet with adaptive CRC and every short/empty-read placement; every edge of that state graph is replayed on the real RTCMReader; recorded executions over adversarial streams, fault schedules and the repository's logs are validated step by step (request sizes, follow-ups, CRC-24Q recomputed in TLA+), and each delivered object is judged against the payload of its own slice; SliceJudge.tla decides for every trace that the delivered frames are well-formed, contiguous, ordered slices of the input; spliced streams, one frame per 12-bit message number.", "3.1, 4/C01"),
     "C02": c("framer", "TLC on Framer.tla with a well-formed item environment (NoLoss/DebtSettled) + TLC-judged traces over file, buffered and socket streams",
              "TLC checks that every item's debt is settled exactly once for all item sequences (incl. zero-length and unknown-type frames); real executions over generated item sequences on three stream kinds conform step by step and deliver exactly the emitted frames.", "3.1, 4/C02"),
     "C03": c("decode", "TLA+ spec of the definition interpreter (Decode.tla): TLC exhaustive on mini-definitions + TLC-judged traces of the real decoder for every identity",
@@ -45,16 +45,16 @@ CHECKS = {
              "All well-formed bodies from a chunk pool x all partitions x bufsizes; on the real code every single and double cut of small bodies and random partitions of large bodies under chunked, gzip, compress and deflate: delivered ++ buffer is always a prefix of the decoded stream and contains every complete chunk.", "3.2, 4/C12",
              "Trusted: TLC 1.8, Dechunk.tla (Ref written from RFC 9112), Python zlib for the inflate dictionary. Only well-formed bodies without chunk extensions are in scope."),
     "C13": c("parallel", "TLC over all work-list pairs and interleavings of two Decode instances (Parallel.tla: TablesConst, HistoryFree) + TLC-generated schedules driving a deterministic thread scheduler on the real code; every result judged history-free by DecodeJudge",
-             "Histories of up to 3 operations over 8 payload classes and three entry points run in one process with table digests after every operation; 2-4 threads follow TLC-generated schedules at function-call granularity plus a free-running stress at 1 us switch interval; every single result is judged by the specification, which knows no history.", "3.7, 4/C13",
+             "Histories of up to 3 operations over 9 payload classes, three entry points and option values run in one process with table digests after every operation; 2-4 threads follow TLC-generated schedules at function-call and source-line granularity; systematic one-preemption schedules at line and bytecode-instruction granularity; a fresh reader per message over shared streams; free-running stress at 1 us switch interval; every single result is judged by the specification, which knows no history.", "3.7, 4/C13",
              "Trusted: TLC 1.8, Decode.tla, threading.settrace / sys.monitoring as yield-point mechanisms (call, line and bytecode-instruction granularity; systematic one-preemption schedules). Multi-preemption schedules below call granularity are sampled."),
     "C14": c("message", "TLC action property Frozen on Lifecycle.tla + TLC-judged assignment histories with full snapshots",
-             "The life-cycle spec is model-checked for every name and operation order; on real messages every attempted assignment must raise RTCMMessageError and the post-snapshot must equal the state the spec derives from the payload.", "3.5, 4/C14"),
+             "The life-cycle spec is model-checked for every name and operation order; on real messages every attempted assignment (public, private, fresh names and every name the library's own code mentions; after a failed serialize; while other threads construct) must raise RTCMMessageError and the post-snapshot must equal the state the spec derives from the payload.", "3.5, 4/C14"),
     "C15": c("message", "TLC exhaustive over 4096 numbers x 256 sub-types (MC_Identity) + exhaustive header sweep on the real code judged by TLC",
              "Identity, table dispatch, stub behaviour and the MSM block are finite: TLC enumerates them against the exported tables and every header is constructed on the real code and judged (identity text, stub keeps payload and serialises back, ismsm).", "3.5, 4/C15"),
     "C16": c("decode", "label-independence is structural in Decode.tla; TLC-judged decodes under option values 0/1/2/True through constructor, static parser and reader",
              "The spec's attribute list does not depend on the option, only the rendering of signal labels does; the real code is judged in each mode, band labels must be globally consistent, and the objects are compared across options.", "3.4, 4/C16"),
     "C17": c("framer", "request sizes are option-free in Framer.tla; TLC over all 12 option combinations + TLC-judged traces of one stream under every combination with cross-run clauses",
-             "TLC explores all option combinations; the same stream is run under every combination, each run validated by FramerTrace.tla, request sequences compared across runs, wrong-CRC frames under validate=0 judged by DecodeJudge against their payload.", "3.1, 4/C17"),
+             "TLC explores all option combinations; the same stream (with large, edge-of-mask, undecodable and payload-altered frames placed deterministically) is run under every combination, each run validated by FramerTrace.tla, request sequences compared across runs, wrong-CRC frames under validate=0 judged by DecodeJudge against their own payload, readers with different options alive at the same time.", "3.1, 4/C17"),
     "C18": c("message", "helper output derived in TLA+ from the spec's attribute list (Message.tla) and compared by TLC with the projected output of parse_msm / parse_4076_201",
              "All 49 MSM types x mask shapes, 4076_201 with 1-4 layers and degree/order up to 16 (153 coefficients), every other identity, every reserved MSM number and unknown numbers.", "3.5, 4/C18"),
     "C19": c("message", "TLC injectivity of name rendering over the exported field table (MC_Names) + TLC-judged datadesc/att2idx/att2name on every attribute name of real messages",
